@@ -66,12 +66,15 @@ pub fn bucket_mask_to_capacity(bucket_mask: usize) -> (r: usize)
     requires bucket_mask < usize::MAX,
     ensures r as int == spec_cap_of(bucket_mask),
 { unimplemented!() }
+/// calculate_layout_for has no state: its answer is a function of its two arguments
+pub uninterp spec fn spec_layout_for(tl: TableLayout, buckets: usize) -> Option<(Layout, usize)>;
 impl TableLayout {
     // contract proved in unit arith on the extracted text (the clauses used here)
     #[verifier::external_body]
     pub fn calculate_layout_for(self, buckets: usize) -> (r: Option<(Layout, usize)>)
         requires spec_is_pow2(buckets), layout_ok(self),
         ensures
+            r == spec_layout_for(self, buckets),
             r matches Some(p) ==> {
                 &&& p.1 as int >= self.size as int * buckets as int
                 &&& p.0.size as int == p.1 as int + buckets as int + Group::WIDTH as int
@@ -82,7 +85,7 @@ impl TableLayout {
 }
 
 /// what the allocator hands out: `size` bytes of arbitrary content
-pub struct Block { pub bytes: Vec<u8> }
+pub struct Block { pub bytes: Vec<u8>, pub back: Ghost<int> }
 // do_alloc -> Allocator::allocate: ASSUMED to return a block of at least the requested size (trimmed to it here)
 #[verifier::external_body]
 pub fn do_alloc<A: Allocator>(alloc: &A, layout: Layout) -> (r: Result<Block, ()>)
@@ -128,3 +131,43 @@ impl RawTableInner {
             final(self).items == old(self).items,
     { unimplemented!() }
 }
+
+// ---- giving the allocation back ----
+pub mod hint {
+    // core::hint::unreachable_unchecked: reaching it is undefined behaviour, so its precondition is `false`
+    #[verifier::external_body]
+    pub fn unreachable_unchecked() -> !
+        requires false,
+    { unimplemented!() }
+}
+// R15f: `ctrl.sub(n)`: the pointer n bytes before the control pointer (the start of the block when n is the
+// control offset the table was allocated with); `back` records n
+#[verifier::external_body]
+pub fn ptr_sub(ctrl: &Vec<u8>, n: usize) -> (r: Block)
+    ensures r.back@ == n,
+{ unimplemented!() }
+impl Layout {
+    pub fn size(&self) -> (r: usize) ensures r == self.size { self.size }
+}
+impl RawTableInner {
+    pub open spec fn spec_is_empty_singleton(&self) -> bool { self.bucket_mask == 0 }
+    #[verifier::when_used_as_spec(spec_is_empty_singleton)]
+    pub fn is_empty_singleton(&self) -> (r: bool) ensures r == (self.bucket_mask == 0), r == self.spec_is_empty_singleton() { self.bucket_mask == 0 }
+    pub fn buckets(&self) -> (r: usize)
+        requires self.bucket_mask < usize::MAX,
+        ensures r == self.bucket_mask + 1,
+    { self.bucket_mask + 1 }
+    /// the table owns a block that new_uninitialized obtained for this element layout
+    pub open spec fn allocated_with(&self, tl: TableLayout) -> bool {
+        &&& self.bucket_mask != 0 && self.bucket_mask < 0x4000_0000_0000_0000
+        &&& spec_is_pow2((self.bucket_mask + 1) as usize)
+        &&& layout_ok(tl)
+        &&& spec_layout_for(tl, (self.bucket_mask + 1) as usize) is Some
+    }
+}
+// Allocator::deallocate: the pointer must be the start of the block and the layout the one it was allocated with
+#[verifier::external_body]
+pub fn do_dealloc<A: Allocator>(alloc: &A, ptr: Block, layout: Layout, Ghost(t): Ghost<RawTableInner>, Ghost(tl): Ghost<TableLayout>)
+    requires
+        spec_layout_for(tl, (t.bucket_mask + 1) as usize) matches Some(p) && layout == p.0 && ptr.back@ == p.1,
+{ unimplemented!() }
